@@ -10,8 +10,8 @@ from common import (Inconclusive, NCPU, TLC_CP, build_harness, copy_specs, log, 
                     tlc, tlc_failed, tlc_stats, tlc_violation, write_cfg, write_evidence)
 
 CONST = {"Addr": '{"A","B","M"}', "Trx": '{"c1","c2","p1"}'}
-MCC = dict(CONST, Iss="<- MCIss", Rcv="<- MCRcv", HasData="<- MCData", HasSpice="<- MCSpice")
-TC = dict(CONST, Iss="<- TIss", Rcv="<- TRcv", HasData="<- TData", HasSpice="<- TSpice", MaxChal="1000",
+MCC = dict(CONST, Iss="<- MCIss", Rcv="<- MCRcv", HasData="<- MCData", HasSpice="<- MCSpice", Oversize="<- MCOver")
+TC = dict(CONST, Trx='{"c1","c2","p1","c3"}', Iss="<- TIss", Rcv="<- TRcv", HasData="<- TData", HasSpice="<- TSpice", Oversize="<- TOver", MaxChal="1000",
           TraceFile='"trace.ndjson"')
 INV = ["C16_ContractNeedsReceiverModuloF11", "C16_TransfersNotParked"]
 
@@ -51,6 +51,14 @@ def directed_slow():
     Bal = lambda a, d, by: {"op": "balance", "a": a, "d": d, "by": by}
     return [[Bal("A", "A", "A"), Bal("B", "B", "B"), {"op": "throttleexpire"}, Bal("A", "A", "M"), Bal("B", "B", "A"),
              {"op": "throttleexpire"}, Bal("A", "A", "A")]]
+
+
+def directed_oversize():
+    """A contract whose data is one byte over the node's limit is refused outright - in whatever form it is presented it is
+    never sealed on the issuer's signature alone - and is not awaiting afterwards."""
+    P = lambda t, by="A", form="issued": {"op": "propose", "t": t, "by": by, "form": form}
+    C = lambda t, i="A", r="B": {"op": "confirm", "t": t, "issBy": i, "rcvBy": r}
+    return [[P("c3"), {"op": "data", "a": "B"}, {"op": "waiting", "a": "B", "cid": 1, "by": "B"}, C("c3"), P("c3"), P("c2"), C("c2"), P("c3")]]
 
 
 def directed_lift():
@@ -163,7 +171,7 @@ def check(prop, tier):
     sims = simulate(wd, 120 if tier == "quick" else 1500, 22, rng.randint(1, 10 ** 6))
     # the behaviours that wait for the 20 s read throttle to lapse take over a minute: thorough tier only
     extra = directed_slow() if tier == "thorough" else []
-    behaviours = [{"id": "C16-%d" % i, "ops": ops} for i, ops in enumerate(sims + directed() + directed_lift() + directed_races(tier) + extra)]
+    behaviours = [{"id": "C16-%d" % i, "ops": ops} for i, ops in enumerate(sims + directed() + directed_lift() + directed_oversize() + directed_races(tier) + extra)]
     log("[gen] %d behaviours" % len(behaviours))
     violations, nev, calls = drive_validate(wd, drivebin, behaviours, INV)
     kv, _, _ = drive_validate(os.path.join(wd, "kf"), drivebin, [{"id": "C16-witness-F11", "ops": WITNESS_F11}],
